@@ -221,6 +221,15 @@ def check_spec(rep, impl, old, pattern, fl, date, new):
     except Exception as ex:
         rep.violation("bumped version cannot be read back (%s)" % type(ex).__name__, input=dict(old=old, pattern=pattern, flags=fl, date=str(date), new=new), **{"class": "new-unreadable"})
         return
+    # TAG is carried over unless --tag is given -- on the TEXT (not through the implementation's reader): the tag word of the old version is
+    # the tag word of the new one
+    if fl["tag"] is None and "TAG" in pattern.replace("PYTAG", ""):
+        import re as _re
+        words = [w for w in ("alpha", "beta", "rc", "dev", "post", "preview") if _re.search(r"(?<![a-z])%s(?![a-z])" % w, old) and not _re.search(r"(?<![a-z])%s(?![a-z])" % w, pattern)]
+        if len(words) == 1 and not _re.search(r"(?<![a-z])%s(?![a-z])" % words[0], new):
+            rep.violation("the release tag %r of the old version is not carried over (no --tag given)" % words[0],
+                          input=dict(old=old, pattern=pattern, flags=fl, date=str(date), new=new), **{"class": "rule-tag"})
+            return
     exp = spec_incr(impl, old_v, pattern, fl, date)
     exp.pop("_all", None)
     for f, want in exp.items():
